@@ -4,7 +4,7 @@ from hypothesis import strategies as st
 
 from .. import gen
 from ..core import SubCheck, Violation
-from ..oracle import lib, np_rows, np_flat, lazy_ra, expect_refused, expect_unchanged, jsonable, arrays_equal, same_scalar
+from ..oracle import LAZY_CHOICES, lib, np_rows, np_flat, lazy_ra, expect_refused, expect_unchanged, jsonable, arrays_equal, same_scalar
 
 RULE = ("Cases = (row-length vector with empty rows in any position incl. all-empty and zero rows, dtype among "
         "bool/int8..uint64/float32/float64 with exact dyadic floats plus inf/nan, reduction, spelling in {method, "
@@ -117,7 +117,7 @@ def named_case(draw, tier):
     spell = draw(st.sampled_from(spells))
     return {"a": a, "f": name, "spell": spell, "axis": draw(st.sampled_from([-1, 1])),
             "keepdims": draw(st.sampled_from([False, False, True])) if spell != "ufunc" else False,
-            "lz": draw(st.sampled_from([0, 0, 1, 2, 3, 4]))}
+            "lz": draw(st.sampled_from(LAZY_CHOICES))}
 
 
 def body_ufunc(case, ctx):
@@ -146,7 +146,7 @@ def body_ufunc(case, ctx):
 def ufunc_case(draw, tier):
     name = draw(st.sampled_from(IDENT_UFUNCS))
     a = draw(gen.ragged(tier, mag=64 if name in INEXACT else None))
-    return {"a": a, "f": name, "axis": draw(st.sampled_from([-1, 1])), "lz": draw(st.sampled_from([0, 0, 1, 2, 3, 4]))}
+    return {"a": a, "f": name, "axis": draw(st.sampled_from([-1, 1])), "lz": draw(st.sampled_from(LAZY_CHOICES))}
 
 
 def body_arg(case, ctx):
@@ -189,7 +189,7 @@ def arg_case(draw, tier):
     else:
         a = draw(gen.ragged(tier, min_rows=1, min_len=1))
     return {"a": a, "f": name, "spell": draw(st.sampled_from(["method", "np"])), "axis": draw(st.sampled_from([-1, 1])),
-            "lz": draw(st.sampled_from([0, 0, 1, 2, 3, 4]))}
+            "lz": draw(st.sampled_from(LAZY_CHOICES))}
 
 
 def body_axis_none(case, ctx):
@@ -232,7 +232,52 @@ def body_axis_none(case, ctx):
 def axis_none_case(draw, tier):
     name = draw(st.sampled_from(["sum", "prod", "any", "all", "max", "min", "mean", "argmax", "argmin"]))
     a = draw(gen.ragged(tier, mag=2**40 if name == "mean" else None))
-    return {"a": a, "f": name, "spell": draw(st.sampled_from(["method", "method-none", "np"])), "lz": draw(st.sampled_from([0, 0, 1, 2, 3, 4]))}
+    return {"a": a, "f": name, "spell": draw(st.sampled_from(["method", "method-none", "np"])), "lz": draw(st.sampled_from(LAZY_CHOICES))}
+
+
+def body_float_sum(case, ctx):
+    """arbitrary finite floats, rows up to 300 elements: reduceat sums sequentially where np.sum sums pairwise, so the
+    comparison uses the forward-error bound of re-ordered summation |got - exp| <= 2 n eps sum|x| (a structural error -
+    a wrong row boundary, a dropped element - is far outside it because the values have wide magnitudes)"""
+    a, name = case["a"], case["f"]
+    rows = np_rows(a)
+    n = len(rows)
+    ctx.label(*gen.shape_labels(a["lens"]), "f:" + name, "dt:" + a["dt"], "row>128" if any(len(r) > 128 for r in rows) else "rows<=128")
+    ctx.nt(any(len(r) > 8 for r in rows) and gen.has_mixed_empty(a["lens"]))
+    ra = lazy_ra(rows, a["dt"], case["lz"])
+    eps = np.finfo(a["dt"]).eps
+    with np.errstate(all="ignore"):
+        got = lib(lambda: getattr(ra, name)(axis=-1) if case["spell"] == "method" else getattr(np, name)(ra, axis=-1))
+    if not got.ok:
+        raise Violation("float-sum:unexpected-refusal", got=got.brief())
+    v = np.asarray(got.value)
+    if v.shape != (n,) or v.dtype != np.dtype(a["dt"]):
+        raise Violation("float-sum:shape-or-dtype", got=got.brief(), expected_dtype=a["dt"])
+    for i, r in enumerate(rows):
+        if len(r) == 0:
+            if name == "sum" and v[i] != 0:
+                raise Violation("float-sum:empty-row", row=i, got=float(v[i]))
+            continue
+        r64 = r.astype(np.float64)
+        exact = float(np.sum(r64))           # float64 reference of float32/float64 data
+        bound = 2 * (len(r) + 1) * eps * float(np.sum(np.abs(r64))) + 4 * float(np.finfo(a["dt"]).tiny)
+        e = exact / len(r) if name == "mean" else exact
+        b = bound / len(r) + 2 * eps * abs(e) if name == "mean" else bound
+        if not abs(float(v[i]) - e) <= b:
+            raise Violation("float-sum:outside-reordering-bound", row=i, got=float(v[i]), reference=e, bound=b, n=len(r), f=name)
+    expect_unchanged(ra, rows, a["dt"], "reduce-operand")
+
+
+@st.composite
+def float_sum_case(draw, tier):
+    dt = draw(st.sampled_from(["float32", "float64"]))
+    big = 300 if tier == "thorough" else 150
+    lens = draw(st.lists(st.one_of(st.sampled_from([0, 0, 1, 2, 9]), st.integers(0, 40), st.integers(100, big)), min_size=1, max_size=5))
+    width = 32 if dt == "float32" else 64
+    lim = float(np.float32(1e30)) if dt == "float32" else 1e290
+    vals = draw(st.lists(st.floats(min_value=-lim, max_value=lim, allow_nan=False, allow_infinity=False, width=width), min_size=sum(lens), max_size=sum(lens)))
+    return {"a": {"lens": lens, "dt": dt, "vals": vals}, "f": draw(st.sampled_from(["sum", "sum", "mean"])),
+            "spell": draw(st.sampled_from(["method", "np"])), "lz": draw(st.sampled_from([0, 0, 1, 2]))}
 
 
 SUBCHECKS = [
@@ -242,6 +287,8 @@ SUBCHECKS = [
              doc="reduce of each of the 12 numpy binary ufuncs that have an identity; identity for empty rows; numpy's refusals"),
     SubCheck("argmax-argmin", body_arg, arg_case, quick=6000, thorough=500000, shards_quick=3,
              doc="argmax/argmin per non-empty row (first occurrence, NaN as numpy)"),
+    SubCheck("float-sum-reordering-bound", body_float_sum, float_sum_case, quick=1500, thorough=60000, shards_quick=3,
+             doc="sum / mean of arbitrary finite float32/float64 rows up to 300 elements (pairwise-summation boundary at 128) within the re-ordering error bound"),
     SubCheck("axis-none", body_axis_none, axis_none_case, quick=4000, thorough=300000, shards_quick=2,
              doc="reductions with no axis equal numpy on the concatenation"),
 ]
